@@ -1,13 +1,273 @@
 /-
-  Driver.OpsC04 — protocol operations for property C04 (filled in by the C04 work package).
-  Contract: `handleC04 op` returns the parser for operation `op` or `none` if `op` is not one of
-  this property's operations.
+  Driver.OpsC04 — protocol operations for property C04 (CLI file mode).
+
+  Strings (names, option arguments, path parts) travel percent-escaped: every character other
+  than ASCII letters, digits, `-` and `_` is written `%<hex code point>.`; the empty string is `%.`.
+
+    floattab := <n> { <str> (bad | exotic | num <units>) }          what `float(str)` does
+    optstrs  := none | some <n> <str>…                              an `action="append"` option
+    arr      := as in Driver.Proto.pArr
+    fields   := <n> { <name> arr }
+    dom      := tables <nres> <nref> | meshes arr arr <topoSame> <storageSame> <minSep> | mixedkinds
+    pair     := dom fields(res) fields(ref)
+    payload  := single pair | seqs <nres> <nref> <k> pair… | mixed
+    scenario := optstrs(rtol) optstrs(atol) <ignSrc> <ignRef> <ignSeq> <forceSeq> <disableReorder>
+                optstrs(incl) optstrs(excl) <readRes> <readRef> payload <n> <part>…
+    read     := ok | io | exc
+
+    cli floattab scenario        → hyp=… model=<0|1|…|raised> spec=<0|nz>
+    pstatus <status> <ignSrc> <ignRef>   → model=<TestStatus>
+    tstatus <status>             → model=<truthy><suiteIsTrue>     (TestStatus.__bool__, TestSuite._is_true)
+    fstatus <status>             → model=<truthy>                  (FieldComparisonStatus.__bool__)
+    exitcode <0|1>               → model=<int>
+    toltok <dyn> <str> floattab  → model=<raised|exotic|named:<name>:<val>|unnamed:<val>>   val = n<units> | s<units>
+    tolfor <dyn> optstrs <name> floattab → model=<raised|none|n<units>|s<units>> spec=…
+    anno <str>                   → model=<str>                     (remove_annotation)
+    suitename <n> <part>…        → model=<str>
 -/
 import Driver.Proto
-namespace Fc.Drv
+import FcModel.Cli
+import FcModel.Spec.C04
+namespace Fc.Drv.C04
+open Fc Fc.C04 Fc.Drv
+
+/-! ### escaping -/
+
+def hexDigit (n : Nat) : Char := if n < 10 then Char.ofNat (48 + n) else Char.ofNat (87 + n)
+
+def hexOf (n : Nat) : List Char :=
+  if n < 16 then [hexDigit n] else hexOf (n / 16) ++ [hexDigit (n % 16)]
+
+def safeChar (c : Char) : Bool := c.isAlphanum || c == '-' || c == '_'
+
+def escStr (s : String) : String :=
+  if s.isEmpty then "%." else
+  String.ofList (s.toList.flatMap fun c => if safeChar c then [c] else ['%'] ++ hexOf c.toNat ++ ['.'])
+
+def hexVal (c : Char) : Option Nat :=
+  if '0' ≤ c ∧ c ≤ '9' then some (c.toNat - 48)
+  else if 'a' ≤ c ∧ c ≤ 'f' then some (c.toNat - 87)
+  else none
+
+/-- parse `hex…` up to the terminating '.'; returns (code point, rest) -/
+def unescHex : List Char → Nat → Option (Nat × List Char)
+  | [], _ => none
+  | c :: cs, acc =>
+    if c == '.' then some (acc, cs)
+    else match hexVal c with
+      | some v => unescHex cs (acc * 16 + v)
+      | none => none
+
+def unescAux : List Char → Nat → Option (List Char)
+  | _, 0 => none
+  | [], _ => some []
+  | c :: cs, fuel + 1 =>
+    if c == '%' then
+      match cs with
+      | '.' :: rest => unescAux rest fuel          -- "%." = nothing (the empty string)
+      | _ =>
+        match unescHex cs 0 with
+        | some (n, rest) => (unescAux rest fuel).map (Char.ofNat n :: ·)
+        | none => none
+    else if safeChar c then (unescAux cs fuel).map (c :: ·)
+    else none
+
+def unescStr (s : String) : Option String :=
+  (unescAux s.toList (s.length + 1)).map String.ofList
+
+def pStr : P String := do
+  let t ← tok
+  match unescStr t with
+  | some s => pure s
+  | none => failure
+
+/-! ### parsers -/
+
+def pFloatLit : P FloatLit := do
+  let t ← tok
+  match t with
+  | "bad" => pure .bad
+  | "exotic" => pure .exotic
+  | "num" => do let u ← pNat; pure (.num u)
+  | _ => failure
+
+/-- the table; looking up a literal that the harness did not supply is a protocol error, which the
+    operations detect through `needed` below (never a default) -/
+def pFloatTab : P (List (String × FloatLit)) := pList (do let s ← pStr; let v ← pFloatLit; pure (s, v))
+
+def tabFun (tab : List (String × FloatLit)) (s : String) : FloatLit := (tab.lookup s).getD .bad
+
+def pOptStrs : P (Option (List String)) := do
+  let t ← tok
+  match t with
+  | "none" => pure none
+  | "some" => do let l ← pList pStr; pure (some l)
+  | _ => failure
+
+def pFields : P (List Field) := pList (do let n ← pStr; let a ← pArr; pure ⟨n, a⟩)
+
+def pDom : P DomainPair := do
+  let t ← tok
+  match t with
+  | "tables" => do let n ← pNat; let m ← pNat; pure (.tables n m)
+  | "meshes" => do
+      let a ← pArr; let b ← pArr; let topo ← pBool; let stor ← pBool; let ms ← pNat
+      pure (.meshes a b topo stor ms)
+  | "mixedkinds" => pure .mixedKinds
+  | _ => failure
+
+def pPair : P PairData := do
+  let d ← pDom; let r ← pFields; let f ← pFields
+  pure ⟨d, r, f⟩
+
+def pPayload : P Payload := do
+  let t ← tok
+  match t with
+  | "single" => do let p ← pPair; pure (.single p)
+  | "seqs" => do let n ← pNat; let m ← pNat; let st ← pList pPair; pure (.seqs n m st)
+  | "mixed" => pure .mixed
+  | _ => failure
+
+def pRead : P ReadOutcome := do
+  let t ← tok
+  match t with
+  | "ok" => pure .ok
+  | "io" => pure .ioerror
+  | "exc" => pure .exception
+  | _ => failure
+
+def pScenario : P Scenario := do
+  let rt ← pOptStrs; let at_ ← pOptStrs
+  let ignSrc ← pBool; let ignRef ← pBool; let ignSeq ← pBool; let force ← pBool; let dis ← pBool
+  let incl ← pOptStrs; let excl ← pOptStrs
+  let rr ← pRead; let rf ← pRead
+  let pl ← pPayload
+  let parts ← pList pStr
+  pure ⟨rt, at_, ignSrc, ignRef, ignSeq, force, dis, incl, excl, rr, rf, pl, parts⟩
+
+/-! ### literals the model will ask `float()` about -/
+
+def neededOne (dyn : Bool) (s : String) : List String :=
+  let val (v : String) : String :=
+    if dyn && endsWith v.toList maxSuffix then String.ofList ((beforeFirst maxSuffix v.toList).getD []) else v
+  match classifyTok s with
+  | .malformed => []
+  | .named _ v => [val v]
+  | .unnamed v => [val v]
+
+def needed (rt at_ : Option (List String)) : List String :=
+  (rt.getD []).flatMap (neededOne false) ++ (at_.getD []).flatMap (neededOne true)
+
+def tabCovers (tab : List (String × FloatLit)) (rt at_ : Option (List String)) : Bool :=
+  (needed rt at_).all fun s => (tab.lookup s).isSome
+
+/-! ### operations -/
+
+def showExit : ExitOutcome → String
+  | .exit n => toString n
+  | .raisedOut => "raised"
+
+def showTolVal : TolVal → String
+  | .num u => s!"n{u}"
+  | .scaled b => s!"s{b}"
+
+def opCli : P String := do
+  let tab ← pFloatTab
+  let s ← pScenario
+  if !tabCovers tab s.rtolToks s.atolToks then failure
+  let pf := tabFun tab
+  let m := (fileMode pf s).1
+  let hyp := scenarioHyp pf s
+  let spec := if Spec.exitZero pf s then "0" else "nz"
+  pure s!"hyp={showBool hyp} model={showExit m} spec={spec}"
+
+def pTestStatus : P TestStatus := do
+  let t ← tok
+  match TestStatus.all.find? (·.name == t) with
+  | some s => pure s
+  | none => failure
+
+def pFcStatus : P FcStatus := do
+  let t ← tok
+  match FcStatus.all.find? (·.name == t) with
+  | some s => pure s
+  | none => failure
+
+def opPStatus : P String := do
+  let st ← pFcStatus; let a ← pBool; let b ← pBool
+  pure s!"hyp=1 model={(parseStatus a b st).name}"
+
+def opTStatus : P String := do
+  let st ← pTestStatus
+  pure s!"hyp=1 model={showBool st.truthy}{showBool (suiteIsTrue st)}"
+
+def opFStatus : P String := do
+  let st ← pFcStatus
+  pure s!"hyp=1 model={showBool st.truthy}"
+
+def opExitCode : P String := do
+  let b ← pBool
+  pure s!"hyp=1 model={boolToExitCode b}"
+
+def opTolTok : P String := do
+  let dyn ← pBool
+  let s ← pStr
+  let tab ← pFloatTab
+  if !((neededOne dyn s).all fun x => (tab.lookup x).isSome) then failure
+  let pf := tabFun tab
+  let showV : Option (Option TolVal) → String
+    | none => "raised"
+    | some none => "exotic"
+    | some (some v) => showTolVal v
+  match classifyTok s with
+  | .malformed => pure "hyp=1 model=raised"
+  | .named n v =>
+    match makeTolerance pf dyn v with
+    | none => pure "hyp=1 model=raised"
+    | r => pure s!"hyp=1 model=named:{escStr n}:{showV r}"
+  | .unnamed v =>
+    match makeTolerance pf dyn v with
+    | none => pure "hyp=1 model=raised"
+    | r => pure s!"hyp=1 model=unnamed:{showV r}"
+
+def opTolFor : P String := do
+  let dyn ← pBool
+  let toks ← pOptStrs
+  let name ← pStr
+  let tab ← pFloatTab
+  if !((toks.getD []).flatMap (neededOne dyn)).all (fun x => (tab.lookup x).isSome) then failure
+  let pf := tabFun tab
+  let showO : Option TolVal → String
+    | none => "none"
+    | some v => showTolVal v
+  match parseTols pf dyn toks with
+  | .raised =>
+    pure s!"hyp=1 model=raised spec={if Spec.tokensValid pf dyn toks then "valid" else "raised"}"
+  | .ok m ex =>
+    let spec := if Spec.tokensValid pf dyn toks then showO (Spec.tolFor pf dyn toks name) else "raised"
+    pure s!"hyp={showBool (!ex)} model={showO (m.get name)} spec={spec}"
+
+def opAnno : P String := do
+  let s ← pStr
+  pure s!"hyp=1 model={escStr (removeAnnotation s)}"
+
+def opSuiteName : P String := do
+  let parts ← pList pStr
+  pure s!"hyp=1 model={escStr (suiteName parts)}"
 
 def handleC04 (op : String) : Option (P String) :=
   match op with
+  | "cli" => some opCli
+  | "pstatus" => some opPStatus
+  | "tstatus" => some opTStatus
+  | "fstatus" => some opFStatus
+  | "exitcode" => some opExitCode
+  | "toltok" => some opTolTok
+  | "tolfor" => some opTolFor
+  | "anno" => some opAnno
+  | "suitename" => some opSuiteName
   | _ => none
 
-end Fc.Drv
+end Fc.Drv.C04
+
+def Fc.Drv.handleC04 := Fc.Drv.C04.handleC04
